@@ -99,6 +99,63 @@ def run_session(params, ch):
         s.finish()
 
 
+def run_boundary(params, ch):
+    """Messages whose payload length sits on a size boundary (4096 = legacy maxdata, 64 KiB, 256 KiB, 1 MiB): an OPEN carrying a long
+    command, and pushes whose WRTEs come out at those sizes.  The strict parser of the device model judges every message."""
+    cfg = scen.ops_cfg('one', params['maxdata'], 'after-ack', 'small')
+    s = Session(ch, cfg, twin=params['twin'])
+    try:
+        res = [s.op(('connect',))]
+        if params['kind'] == 'open':
+            cmd = 'x' * (params['payload'] - len('shell:') - 1)
+            res.append(s.op(('shell', cmd, {'decode': False})))
+            want = ('ok', b'out:' + cmd.encode())
+        else:
+            res.append(s.op(('push', ('bytes', scen.push_data(params['size'])), '/p' + 'q' * params['plen'], {'mtime': 7})))
+            want = ('ok', None)
+        res.append(s.op(scen.op_tuple('stat')))
+        viol = oracle.base_viol(s, completed=all(r[0] == 'ok' for r in res))
+        if res[1] != want:
+            viol.append({'msg': 'operation with a boundary-sized message gave %r' % (res[1] if len(repr(res[1])) < 200 else repr(res[1])[:200],)})
+        if res[2] != scen.op_expected('stat', cfg):
+            viol.append({'msg': 'stat after the boundary-sized message gave %r' % (res[2],)})
+        sizes = sorted({len(p.data) for w, p in s.env.events if w == 'H'})
+        return {'outcome': (tuple(r[0] for r in res), tuple(sizes[-3:])), 'viol': viol, 'nontrivial': tuple(sorted((k, str(v)) for k, v in params.items())),
+                'sample': dict(params, payload_sizes=sizes[-4:]), 'trans': len(s.env.events)}
+    finally:
+        s.finish()
+
+
+def run_slow_then_reconnect(params, ch):
+    """A transport that accepts few bytes per call and is slow: the read timeout expires in the middle of a message (the call raises).  Then
+    connect() again -- with or without close() -- and run a command: the byte stream of the new connection is well-formed from its first byte."""
+    cfg = scen.ops_cfg('one', 4096)
+    cfg['wcap_global'] = params['cap']
+    s = Session(ch, cfg, twin=params['twin'], eps=params['eps'])
+    try:
+        s.op(('connect',))
+        r1 = s.op(('shell', 'c' * params['cmdlen'], {'decode': False, 'read_timeout_s': params['rt']}))
+        if params['close']:
+            s.op(('close',))
+        s.env.wcap_global = None
+        s.env.eps = 0.0
+        n0 = len(s.env.events)
+        r2 = s.op(('connect',))
+        r3 = s.op(scen.op_tuple('shell'))
+        viol = []
+        if r2 != ('ok', True) or r3 != scen.op_expected('shell', cfg):
+            viol.append({'msg': 'after a write that timed out in mid-message, connect()%s + shell gave %r / %r' % (' after close()' if params['close'] else '', r2[:3], r3[:3])})
+        viol += [{'msg': '%s: %s' % i} for i in s.env.issues if i[0] == 'frame' and 'session %d' % s.env.sessions in i[1] or i[0] == 'frame2']
+        first = [p for w, p in s.env.events[n0:] if w == 'H'][:1]
+        if not first or first[0].cmd != b'CNXN':
+            viol.append({'msg': 'the first message on the new connection is %r' % (first,)})
+        if s.env.dev is not None and s.env.dev.parser.error:
+            viol.append({'msg': 'new connection: %s' % s.env.dev.parser.error})
+        return {'outcome': (r1[:2], r2[:2], r3[0]), 'viol': viol, 'nontrivial': tuple(sorted((k, str(v)) for k, v in params.items())), 'sample': dict(params, first=r1[:2]), 'trans': len(s.env.events)}
+    finally:
+        s.finish()
+
+
 def run_two_devices(params, ch):
     """Two device objects in one process used at the same time (threads / tasks), one of them over a transport that writes
     short: nothing that is shared between the objects may leak from one byte stream into the other."""
@@ -220,6 +277,13 @@ def parts(tier):
            for t in ('sync', 'async') for md in (4096, 1024 * 1024) for con in auths for v in (0x01000001, 0x01000000 + 0xFFFF, 1)]
     out.append(Part('sessions', sc, run_session, {'dev-order': None}, what='whole sessions through the strict parser, id counter at the wrap, remote ids at 32-bit extremes',
                     bound='%d sessions' % len(sc)))
+    sc = [{'kind': 'open', 'twin': t, 'maxdata': md, 'payload': b + d} for t in ('sync', 'async') for md in (4096, 1024 * 1024) for b in (4096, 65536, 256 * 1024, 1024 * 1024) for d in (-2, -1, 0, 1, 2)
+          if b + d <= 1024 * 1024]
+    sc += [{'kind': 'push', 'twin': t, 'maxdata': md, 'size': z, 'plen': pl} for t in ('sync', 'async') for md in (4096, 8192, 65536) for pl in (0, 11) for z in range(md - 60 - pl, md - 20 - pl)]
+    out.append(Part('boundary-payloads', sc, run_boundary, what='OPEN payloads within +-2 of 4096 / 64 KiB / 256 KiB / 1 MiB and pushes whose first WRTE is within a few bytes of maxdata', bound='%d cases' % len(sc)))
+    sc = [{'twin': t, 'cap': cap, 'eps': 0.05, 'rt': rt, 'cmdlen': n, 'close': c} for t in ('sync', 'async') for cap in (16, 5) for rt in (0.01, 0.12, 0.3) for n in (10, 200) for c in (False, True)]
+    out.append(Part('slow-write-then-reconnect', sc, run_slow_then_reconnect, what='a write that times out in mid-message over a slow short-writing transport, then connect() again (with/without close()) and a command',
+                    bound='%d cases' % len(sc), min_outcomes=2))
     deep = tier == 'thorough'
     out.append(Part('two-devices', [{'twin': 'sync'}], run_two_devices, {'sched': 2 if deep else 1, 'wcap': 1, 'dev-order': 0}, split=2, min_outcomes=1,
                     what='two device objects used from two threads, one over a short-writing transport: all schedules with <=%d preemption(s) x one short write' % (2 if deep else 1),
